@@ -132,6 +132,14 @@ def run(ctx):
                 name = sorted(pkg.media)[-1]
                 pkg.media[name] = bytes(rng.randrange(256) for _ in range(70000 + i))
                 conv = ["data_uri", "counting"][i]
+            elif i in (2, 3, 4):
+                # the same picture several times in a row, with nothing in between: each occurrence is an image of its own
+                from mammoth.docx.xmlparser import element as X
+                g = gen_xml.XGen(rng, textboxes=False, notes=False, comments=False, deleted=False, fields=False, linked_rate=0.0, anomalies=0.0)
+                pkg = g.package(1)
+                dr = g.drawing()
+                pkg.body.append(X("w:p", {}, [X("w:r", {}, [dr, dr, dr]), X("w:r", {}, [dr])]))
+                conv = ["data_uri", "counting", "no_open"][i - 2]
             opts = {"style_map": None, "include_default_style_map": True, "include_embedded_style_map": True,
                     "ignore_empty_paragraphs": True, "id_prefix": None, "conv": conv}
             data, parts = B.build(pkg)
